@@ -2157,10 +2157,10 @@ impl Prop for C14 {
         "exploration"
     }
     fn rule(&self, _: &Ctx) -> String {
-        "all two-request histories over: ETag {absent, strong, weak} x mtime {absent, epoch, whole second, +1ms, +1ns, +999999999ns, now+1day} x entity header sets {none, 1, 3} x first request {plain, single range, multi range, unsatisfiable, failing If-Match, matching If-None-Match, multi/single range + If-Range} x all 32 subsets of echoed validators (If-None-Match, If-Modified-Since, If-Match, If-Unmodified-Since, If-Range+Range) x GET/HEAD. Non-trivial = distinct history whose first response headers were checked and (if anything was echoed) whose second status was compared with the round-trip rule".into()
+        "all two-request histories over: ETag {absent, strong, weak} x mtime {absent, epoch, whole second, +1ms, +1ns, +999999999ns, now+1day} x entity header sets {none, 1, 3, repeated name} x first request {plain, single range, multi range, unsatisfiable, failing If-Match, matching If-None-Match, multi/single range + If-Range} x all 32 subsets of echoed validators (If-None-Match, If-Modified-Since, If-Match, If-Unmodified-Since, If-Range+Range) x GET/HEAD. Non-trivial = distinct history whose first response headers were checked and (if anything was echoed) whose second status was compared with the round-trip rule".into()
     }
     fn n_blocks(&self, _: &Ctx) -> usize {
-        3 * 7 * 3
+        3 * 7 * 4
     }
     fn exhaustive(&self, _: &Ctx) -> bool {
         true
@@ -2171,7 +2171,7 @@ impl Prop for C14 {
         let etag = etags[b % 3];
         let mtime = c14_mtimes(now)[(b / 3) % 7];
         let hdr_sets = c06_hdr_sets();
-        let hdrs = hdr_sets[[0usize, 1, 2][b / 21]].clone();
+        let hdrs = hdr_sets[[0usize, 1, 2, 4][b / 21]].clone();
         let slow = sink.ctx.leg.slow();
         for first in c14_firsts() {
             for echo in 0u8..32 {
